@@ -109,12 +109,21 @@ func (c *tqClient) Batch(remote string, bReq *batchRequest) (*BatchResponse, err
 		return nil, lfshttp.NewStatusCodeError(res)
 	}
 
+	objects := bRes.Objects[:0]
 	for _, obj := range bRes.Objects {
+		if obj == nil {
+			// A JSON null in place of an object carries no information.
+			continue
+		}
 		obj.Missing = missing[obj.Oid]
 		for _, a := range obj.Actions {
-			a.createdAt = requestedAt
+			if a != nil {
+				a.createdAt = requestedAt
+			}
 		}
+		objects = append(objects, obj)
 	}
+	bRes.Objects = objects
 
 	return bRes, nil
 }
